@@ -203,7 +203,7 @@ impl Property for C10 {
         Scenario {
             family: format!("c10-{kind}"),
             ops: vec![],
-            modules: vec![(vec!["hm".to_string()], HM_BODY.to_string())],
+            modules: vec![(vec!["hm".to_string()], HM_BODY.to_string()), (vec!["num".to_string()], HM_BODY.to_string())],
             files,
             timing: false,
             io: false,
@@ -220,7 +220,7 @@ impl Property for C10 {
         s2.ops = if e.kind == "repl-process-ref" {
             e.body.split(";;").map(|l| ClientOp::Line { session: 0, src: l.to_string() }).collect()
         } else {
-            vec![ClientOp::Run { src: render_run(&e, false), shake: false, json: false, wait: true }]
+            vec![ClientOp::Run { src: render_run(&e, 0), shake: false, json: false, wait: true }]
         };
         let spec = super::reference_spec(&s2, case_seed);
         let r = super::run_spec(self, &s2, spec.clone(), false);
@@ -262,7 +262,7 @@ impl Property for C10 {
                 ops.push(op);
             }
         }
-        let import = e.uses_hm && rng.chance(1, 2);
+        let import: u8 = if e.uses_hm && rng.chance(1, 2) { if rng.chance(1, 6) { 2 + rng.below(2) as u8 } else { 1 } } else { 0 };
         if e.kind == "repl-process-ref" {
             // nothing may start a process between the spawn and the `@?` line
             ops.extend(during);
@@ -329,7 +329,7 @@ impl Property for C10 {
                         if *json {
                             m.insert("subject_json_roundtrip".into(), 1);
                         }
-                        if src.contains("%hm") {
+                        if (src.contains("%hm") || src.contains("%num")) {
                             m.insert("subject_module_import".into(), 1);
                         }
                     }
@@ -345,13 +345,13 @@ impl Property for C10 {
                     if *json {
                         m.insert("subject_json_roundtrip".into(), 1);
                     }
-                    if src.contains("%hm") {
+                    if (src.contains("%hm") || src.contains("%num")) {
                         m.insert("subject_module_import".into(), 1);
                     }
                 }
                 Some(ClientOp::Line { .. }) => {
                     m.insert("subject_via_repl".into(), 1);
-                    if r.ops.iter().any(|o| matches!(o, ClientOp::Line { session: 0, src } if src.contains("%hm"))) {
+                    if r.ops.iter().any(|o| matches!(o, ClientOp::Line { session: 0, src } if (src.contains("%hm") || src.contains("%num")))) {
                         m.insert("subject_module_import".into(), 1);
                     }
                 }
@@ -363,15 +363,30 @@ impl Property for C10 {
         }
         m
     }
+    fn allows_rejected_lines(&self) -> bool {
+        // judged below: rejected where the reference was accepted = violation, rejected in the
+        // reference too = harness error
+        true
+    }
     fn judge(&self, scn: &Scenario, _refdata: Option<&RefData>, r: &RunResult) -> Vec<Violation> {
         let mut v = Vec::new();
         let Ok(e) = serde_json::from_value::<Expect>(scn.expect.clone()) else { return v };
         let Some(reference) = e.reference else { return v };
+        // a program the front end accepted as compiled in a fresh environment and rejects in this
+        // packaging (helpers imported, another history) is a packaging difference; one it rejects in
+        // the reference run as well is a generator bug
+        if let Some(bad) = r.outs.iter().find(|o| matches!(o, Out::CompileError(_) | Out::ParseError)) {
+            if matches!(reference, Out::CompileError(_) | Out::ParseError) {
+                return vec![Violation::new("HARNESS", "scenario-rejected", "generator-bug", format!("generated scenario was rejected by the front end: {:?}", bad), r.steps)];
+            }
+            v.push(Violation::new("C10", "packaging", "rejected-by-front-end", format!("subject ({}) was rejected by the front end in this packaging: {:?}; as compiled in a fresh environment it gives {:?}", e.kind, bad, reference), r.steps));
+            return v;
+        }
         let got = r.outs.last();
         if got != Some(&reference) {
             let subject = r.ops.iter().rev().find(|o| matches!(o, ClientOp::Run { .. } | ClientOp::Line { session: 0, .. }));
             let how = match subject {
-                Some(ClientOp::Run { shake, json, src, .. }) => format!("run path shake={shake} json={json} import={}", src.contains("%hm")),
+                Some(ClientOp::Run { shake, json, src, .. }) => format!("run path shake={shake} json={json} import={}", (src.contains("%hm") || src.contains("%num"))),
                 Some(ClientOp::Line { .. }) => "REPL path".to_string(),
                 _ => String::new(),
             };
@@ -395,11 +410,20 @@ impl Property for C10 {
     }
 }
 
-fn hm_line(import: bool) -> String {
-    if import { "hm = %hm".to_string() } else { format!("hm = {HM_BODY}") }
+/// How the helper record reaches the subject: 0 written in place, 1 imported from the in-memory
+/// module `hm`, 2 / 3 imported from an in-memory module of the program's own that is called `num` -
+/// the name of a standard-library module - next to an import of the library's `list`, which itself
+/// imports the library's `iter` and `num` (resolution is per package: each side must get its own).
+fn hm_line(import: u8) -> String {
+    match import {
+        0 => format!("hm = {HM_BODY}"),
+        1 => "hm = %hm".to_string(),
+        2 => "lq = %list, hm = %num".to_string(),
+        _ => "hm = %num, lq = %list".to_string(),
+    }
 }
 
-fn render_run(e: &Expect, import: bool) -> String {
+fn render_run(e: &Expect, import: u8) -> String {
     let mut parts: Vec<String> = Vec::new();
     if !e.defs.is_empty() {
         parts.push(e.defs.clone());
@@ -411,7 +435,7 @@ fn render_run(e: &Expect, import: bool) -> String {
     parts.join(", ")
 }
 
-fn render_repl(e: &Expect, import: bool) -> String {
+fn render_repl(e: &Expect, import: u8) -> String {
     let mut parts: Vec<String> = Vec::new();
     if !e.defs.is_empty() {
         parts.push(e.defs.clone());
